@@ -268,23 +268,25 @@ func (s *Service) UpdateSyncCommitteeDataRecord(
 
 // GetDataUsedForSlot returns slot data recorded for the sync committee message for a given slot.
 func (s *Service) GetDataUsedForSlot(slot phase0.Slot) (synccommitteemessenger.SlotData, bool) {
+	s.slotDataRecordsMu.Lock()
 	root, found := s.slotDataRecords[slot]
+	s.slotDataRecordsMu.Unlock()
 	return root, found
 }
 
 // RemoveHistoricDataUsedForSlotVerification goes through the sync committee data stored for each slot and removes old slots.
 func (s *Service) RemoveHistoricDataUsedForSlotVerification(currentSlot phase0.Slot) {
 	// Only trigger if we have crossed threshold of max slot records to keep.
+	s.slotDataRecordsMu.Lock()
 	if len(s.slotDataRecords) > maxSlotDataRecordsBeforeCleanUp {
 		lowestSlotToKeep := currentSlot - minSlotDataRecordsToKeep
-		s.slotDataRecordsMu.Lock()
 		for slot := range s.slotDataRecords {
 			if slot < lowestSlotToKeep {
 				delete(s.slotDataRecords, slot)
 			}
 		}
-		s.slotDataRecordsMu.Unlock()
 	}
+	s.slotDataRecordsMu.Unlock()
 }
 
 func (s *Service) contributions(ctx context.Context,
